@@ -123,7 +123,7 @@ Definition dispositions : list (site * disp) := [
   (("DeterministicSampler.GetSampleRate", "slice", "sum[:4]"), DProved "sha1_prefix");
   (("DeterministicSampler.Start", "div", "math.MaxUint32 / uint32(d.sampleRate)"), DFixed "det_upper_bound_gen_safe");
   (("SamplerFactory.GetDownstreamSampler", "exit", "os.Exit"), DStartup "unknown sampler type: the Go type switch over the config structs is exhaustive for parsed rules");
-  (("SamplerFactory.createSampler", "exit", "os.Exit"), DStartup "unknown sampler type: the Go type switch over the config structs is exhaustive for parsed rules");
+  (("SamplerFactory.createSamplerIn", "exit", "os.Exit"), DStartup "unknown sampler type: the Go type switch over the config structs is exhaustive for parsed rules");
   (("SamplerFactory.updatePeerCounts", "div", "cfg / s.peerCount"), DCallerGuard "peerCount starts at 1 and is only overwritten by len(peers) > 0");
   (("createDynForEMAThroughputSampler", "div", "c.GoalThroughputPerSec / clusterSize"), DConstant "clusterSize := 1 two lines above");
   (("createDynForTotalThroughputSampler", "div", "c.GoalThroughputPerSec / clusterSize"), DConstant "clusterSize := 1 two lines above");
